@@ -155,6 +155,7 @@ def install_core(silence_logger=True, stub_outputs=True):
         setattr_mod('jesse.models.FuturesExchange', 'find_order_index', fe.find_order_index.py_func, 'numba kernel -> its python source')
     setattr_mod('jesse.config', 'float', pfloat, 'float() passes proxies')
     setattr_mod('jesse.config', 'int', pint, 'int() passes proxies')
+    setattr_mod('jesse.store.state_candles', 'int', pint, 'int() passes proxies')
     setattr_mod('jesse.helpers', 'float', pfloat)
     setattr_mod('jesse.helpers', 'round', pround)
     setattr_mod('jesse.helpers', 'math', MATH)
